@@ -40,6 +40,7 @@ var c03Templates = []string{
 	"Patient.name.tail().given", "Patient.name.where(family.exists()).select(given.first())", "Patient.deceased as boolean", "Patient.name[0] is HumanName", "Patient.telecom.rank.skip(1)", "Patient.children()", "Patient.descendants().where($this is string)", "Patient.extension.value", "Patient.name.given.distinct()", "Patient.name.given.toChars()",
 	"Patient.name.given.intersect(%givens)", "%givens.intersect(Patient.name.given)", "Patient.name.given.exclude(%givens)", "%givens.exclude(Patient.name.given)", "%prims.distinct()", "%prims.isDistinct()", "%prims.intersect(%prims)", "%prims = %prims", "%prims.where($this = 1)", "%prims.select($this.toString())", "%givens.where($this = 'zz')", "%givens & 'x'", "%prims.exclude(%givens)", "Patient.name.use.intersect(%prims)", "%prims.first() + 1", "%givens.first().length()", "%prims.skip(5) < @2021", "%givens.all($this.exists())", "%prims.take(2).combine(%givens)",
 	"Patient.birthDate = @1974-12-25", "Patient.birthDate < today()", "Patient.birthDate.toString()", "Patient.birthDate + 1 year", "Patient.descendants().where($this is date or $this is dateTime).select($this.toString())", "Patient.birthDate | Patient.deceased", "Patient.birthDate is date", "%pat.birthDate.toDateTime()", "Patient.descendants().select($this = $this)",
+	"%names.select(%spare)", "%names.select(%spare.take(1))", "%names.select(%shared1)", "Patient.name.select(%spare.take(2))", "%names.select(%one)", "%names.select(%shared1.take(1))", "%spare.select(%one)", "%names.select(%givens.take(1))", "%names.select(%spare.skip(1))", "%names.select(%spare.tail())", "%context.select(%names.take(1))", "%names.select(%e | %one)", "%spare.where(true).select(%shared2)", "%names.select(iif(true, %spare.take(1)))",
 	"Patient.name.exclude(Patient.name.take(1))", "Patient.name.intersect(%names)", "iif(%e.exists(), %spare, %shared1)", "%spare.join(',')", "%strs2.join('-') & %e", "%spare.count() + %e.count()", "%spare.zzNoSuchFn()", "%spare.where($this > 'x')", "%names.family.upper() & %e",
 }
 
